@@ -12,7 +12,7 @@ import (
 
 func init() {
 	register("C10", propMeta{
-		Explanation: "E-CONST + E-GUARD + E-PAIR + E-PANIC on common/amp. O-1 size constants: bytesPerChunk = 32, elementSizeLimit = 32 KiB, 1 + chunksPerElement*(bytesPerChunk+1) <= elementSizeLimit, and in decodeToWriter tokenizer.SetMaxBuf(c) with c >= that encoder maximum lies on every path between html.NewTokenizer and the first tokenizer.Next (bounded buffering). O-2 whitespace vocabulary: the case set of isASCIIWhitespace is {09, 0a, 0c, 0d, 20} and every separator the encoder writes after a word is in it. O-3 version, alphabet and single stream agree: the encoder writes the version byte '0' through the element encoder before creating the base64 encoder; armorEncoder.Write feeds the payload only through that one streaming base64 encoder; the decoder accepts exactly '0', returns ErrUnknownVersion otherwise; both sides use base64.StdEncoding. O-4 structural errors are errors: the 'inside a pre element' state becomes true only on its false edge and false only on its true edge, by literal transitions; a nested start tag, a stray end tag and end of input inside an element each lead to a return that never re-enters the loop; text reaches the output only on the active edge. O-5 no hang or leak: the decoder goroutine closes the pipe with the decode error on every path and every error return of NewArmorDecoder closes the read side first. O-6 no termination construct reachable from the encoder and decoder entry points. O-7 the one Read whose count is discarded (the version byte from the io.Pipe) is fed only by writes of scanner tokens. Added after the second seeding round: O-5 also requires that no path leads from the tokenizer's ErrorToken case back to Next() (the error is sticky: the loop would spin); O-8 no function of common/amp returns, writes, appends/copies into, or calls a method on a package-level object (compiled regexps, base64 alphabets and sync primitives excepted).",
+		Explanation: "E-CONST + E-GUARD + E-PAIR + E-PANIC on common/amp. O-1 size constants: bytesPerChunk = 32, elementSizeLimit = 32 KiB, 1 + chunksPerElement*(bytesPerChunk+1) <= elementSizeLimit, and in decodeToWriter tokenizer.SetMaxBuf(c) with c >= that encoder maximum lies on every path between html.NewTokenizer and the first tokenizer.Next (bounded buffering). O-2 whitespace vocabulary: the case set of isASCIIWhitespace is {09, 0a, 0c, 0d, 20} and every separator the encoder writes after a word is in it. O-3 version, alphabet and single stream agree: the encoder writes the version byte '0' through the element encoder before creating the base64 encoder; armorEncoder.Write feeds the payload only through that one streaming base64 encoder; the decoder accepts exactly '0', returns ErrUnknownVersion otherwise; both sides use base64.StdEncoding. O-4 structural errors are errors: the 'inside a pre element' state becomes true only on its false edge and false only on its true edge, by literal transitions; a nested start tag, a stray end tag and end of input inside an element each lead to a return that never re-enters the loop; text reaches the output only on the active edge. O-5 no hang or leak: the decoder goroutine closes the pipe with the decode error on every path and every error return of NewArmorDecoder closes the read side first. O-6 no termination construct reachable from the encoder and decoder entry points. O-7 the one Read whose count is discarded (the version byte from the io.Pipe) is fed only by writes of scanner tokens. Added after the second seeding round: O-5 also requires that no path leads from the tokenizer's ErrorToken case back to Next() (the error is sticky: the loop would spin); O-8 no function of common/amp returns, writes, appends/copies into, or calls a method on a package-level object (compiled regexps, base64 alphabets and sync primitives excepted). Added after the fourth seeding round: O-1b the element encoder's two counters are only advanced (old value plus something) or restarted at zero behind the comparison with their limit, and every payload write is followed by an advance of the chunk counter.",
 		NotDecided:  "round-trip equality and re-chunking invariance over actual bytes (value-level), the HTML tokenizer's behaviour (third-party).",
 		Assumptions: []string{"golang.org/x/net/html honours SetMaxBuf", "encoding/base64 streaming encoder/decoder are inverse"},
 	}, runC10)
@@ -45,6 +45,7 @@ func runC10(c *Ctx) {
 		c.check(esl == 32*1024, rule1, "elementSizeLimit == 32 KiB", "-", "", fmt.Sprintf("%d", esl))
 		c.check(1+cpe*(bpc+1) <= esl, rule1, "an element's text fits the element size limit", "-", fmt.Sprintf("1 + %d*(%d+1) = %d <= %d", cpe, bpc, 1+cpe*(bpc+1), esl), fmt.Sprintf("1 + %d*(%d+1) = %d > %d: the encoder can produce elements the decoder's buffer limit rejects", cpe, bpc, 1+cpe*(bpc+1), esl))
 	}
+	c.checkEncoderCounters()
 	dec := p.Fn("common/amp", "decodeToWriter")
 	if dec == nil {
 		c.undecided(rule1, "amp.decodeToWriter", "-", "anchor does not resolve")
@@ -495,4 +496,120 @@ func (c *Ctx) checkArmorStateMachine(dec *ssa.Function) {
 			c.check(path == nil, rule, "text is decoded only inside a pre element", p.instrPos(ci), "", "text outside pre elements reaches the base64 decoder", p.pathString(path)...)
 		}
 	}
+}
+
+// checkEncoderCounters: the element encoder keeps the word and element limits by
+// counting. Each of its two counters is only ever advanced (old value plus
+// something) or restarted at zero, the restart lies behind the comparison of that
+// counter with its limit, and every payload write is followed by an advance of
+// the chunk counter. A counter that is assigned anything else forgets what was
+// written: words grow past 32 bytes and elements past the decoder's limit.
+func (c *Ctx) checkEncoderCounters() {
+	p := c.P
+	rule := "O-1b the element encoder's counters accumulate"
+	scope := p.FnsIn("common/amp")
+	for _, row := range []struct{ field, limit string }{{"chunkCounter", "bytesPerChunk"}, {"elementCounter", "chunksPerElement"}} {
+		f := p.Field("common/amp", "elementEncoder", row.field)
+		lim := p.Const("common/amp", row.limit)
+		if f == nil || lim == nil {
+			c.undecided(rule, "elementEncoder."+row.field, "-", "field or limit constant does not resolve")
+			continue
+		}
+		isCounter := func(v ssa.Value) bool { return isFieldLoadOf(v, f) }
+		isLimit := func(v ssa.Value) bool {
+			k, ok := v.(*ssa.Const)
+			return ok && k.Value != nil && k.Value.ExactString() == lim.Val().ExactString()
+		}
+		nAdv, nZero, bad := 0, 0, 0
+		for _, st := range storesToField(scope, f) {
+			fn := st.Parent()
+			if k, ok := constInt(st.Val); ok && k == 0 {
+				nZero++
+				full := cmpEdges(fn, ">=", isCounter, isLimit)
+				full = append(full, condEdges(fn, true, func(a Atom) bool { return a.Op == token.EQL && isCounter(a.X) && isLimit(a.Y) })...)
+				if isFreshBase(fn, st.Addr, st) {
+					continue // initialisation of a new encoder
+				}
+				path := reachableWithout(fn, st, full)
+				if len(full) == 0 || path != nil {
+					bad++
+					c.viol(rule, p.FnName(fn)+" restarts "+row.field, p.instrPos(st), "the counter is reset although it has not reached "+row.limit+": the word or element being filled is forgotten", p.pathString(path)...)
+				}
+				continue
+			}
+			if bo, ok := st.Val.(*ssa.BinOp); ok && bo.Op == token.ADD && (isCounter(bo.X) || isCounter(bo.Y)) {
+				nAdv++
+				continue
+			}
+			bad++
+			c.viol(rule, p.FnName(fn)+" assigns "+row.field, p.instrPos(st), "the counter receives a value that is neither its old value plus something nor zero: bytes already written into the open word are no longer counted, so the word never completes (no newline, no </pre>) or overflows")
+		}
+		if bad == 0 {
+			if nAdv == 0 || nZero == 0 {
+				c.undecided(rule, "elementEncoder."+row.field, p.Pos(f.Pos()), fmt.Sprintf("%d advancing and %d restarting store(s): the counting scheme must be re-identified", nAdv, nZero))
+			} else {
+				c.ok(rule, "elementEncoder."+row.field+" is only advanced or restarted at its limit", p.Pos(f.Pos()), fmt.Sprintf("%d advancing, %d restarting store(s)", nAdv, nZero))
+			}
+		}
+	}
+	// every payload write advances the chunk counter
+	w := p.Fn("common/amp", "(*elementEncoder).Write")
+	cf := p.Field("common/amp", "elementEncoder", "chunkCounter")
+	if w == nil || cf == nil || len(w.Params) < 2 {
+		c.undecided(rule, "elementEncoder.Write", "-", "anchor does not resolve")
+		return
+	}
+	n := 0
+	for _, ci := range callsIn(w) {
+		cc, ok := ci.(*ssa.Call)
+		if !ok || calleeName(ci) != "(io.Writer).Write" {
+			continue
+		}
+		if !flows(cc.Call.Args[0], func(v ssa.Value) bool { return v == ssa.Value(w.Params[1]) }) {
+			continue // markup
+		}
+		n++
+		okE := errNilEdges(w, cc, 1)
+		good := len(okE) > 0
+		var wp []*ssa.BasicBlock
+		for _, e := range okE {
+			if pth := escapesOrLoopsBackWithout(e.To(), cc.Block(), func(in ssa.Instruction) bool {
+				st, ok := in.(*ssa.Store)
+				if !ok {
+					return false
+				}
+				_, g, okf := fieldOfAddr(st.Addr)
+				return okf && g == cf
+			}); pth != nil {
+				good, wp = false, pth
+			}
+		}
+		c.check(good, rule, "elementEncoder.Write counts every payload write", p.instrPos(cc), "", "payload bytes can be written without the chunk counter being advanced", p.pathString(wp)...)
+	}
+	if n == 0 {
+		c.undecided(rule, "elementEncoder.Write payload writes", p.Pos(w.Pos()), "no write of the parameter's bytes found")
+	}
+}
+
+// escapesOrLoopsBackWithout: from block `from`, is there a path to a return, or back to
+// block `again`, that executes no instruction satisfying pass?
+func escapesOrLoopsBackWithout(from, again *ssa.BasicBlock, pass func(ssa.Instruction) bool) []*ssa.BasicBlock {
+	blocked := func(b *ssa.BasicBlock) bool {
+		for _, in := range b.Instrs {
+			if pass(in) {
+				return true
+			}
+		}
+		return false
+	}
+	return psSearch(from, nil, blocked, func(b *ssa.BasicBlock) bool {
+		if b == again {
+			return true
+		}
+		if len(b.Instrs) == 0 {
+			return false
+		}
+		_, isRet := b.Instrs[len(b.Instrs)-1].(*ssa.Return)
+		return isRet
+	})
 }
